@@ -7,7 +7,7 @@ peak_k - g <= |jerk|.
 import itertools
 
 from .. import core
-from ..firmware import RATE_MAX, t3_states
+from ..firmware import RATE_MAX, t3_rate_closed, t3_states
 
 PROPERTY = "C17"
 P22, P27, P29, P30, P31 = 1 << 22, 1 << 27, 1 << 29, 1 << 30, 1 << 31
@@ -185,6 +185,7 @@ def run(ctx):
                             [(c, ctx.pick(200, 600)) for c in core.split(limit_rows(ctx), 64)]))
     from .. import calcseq                 # pylint: disable=import-outside-toplevel
     part.merge(calcseq.explore(ctx, ['max_rate_t3']))
+    check_long_linear(part)
     cnt = part.counters
     coverage = {
         "over_limit_states": cnt.get("over_limit_states", 0),
@@ -210,7 +211,34 @@ def run(ctx):
     return {"part": part, "coverage": coverage, "assumptions": assumptions}
 
 
+def long_linear_rows():
+    """Moves of 2^31 ticks and more (T is an unsigned 32-bit count; a day-long move) - there only
+    a linear rate (jerk 0, |accel| <= 1) stays in range, and its peak is at one of the two ends."""
+    out = []
+    for ticks in ((1 << 31) - 1, 1 << 31, (1 << 31) + 1, 3 * (1 << 30) - 1, (1 << 32) - 2, (1 << 32) - 1):
+        for rate, accel in ((-(1 << 30), 1), ((1 << 30), -1), (5, 0), (-7, 0), ((1 << 31) - 1, -1),
+                            (-(1 << 31) + 1, 1), (0, 1), (0, -1), (12345, 1)):
+            first = abs(t3_rate_closed(rate, accel, 0, 1))
+            last = abs(t3_rate_closed(rate, accel, 0, ticks))
+            if max(first, last) <= RATE_MAX:
+                out.append((rate, accel, ticks, first, last))
+    return out
+
+
+def check_long_linear(part):
+    for rate, accel, ticks, first, last in long_linear_rows():
+        for clause, msg in check_state(rate, accel, 0, ticks, first, last, max(first, last)):
+            part.violation(f"{clause}:long:{rate}:{accel}:{ticks}", msg,
+                           {"kind": "long_linear", "rate": rate, "accel": accel, "ticks": ticks})
+        part.count("long_linear_moves")
+
+
 def replay(case):
+    if case.get("kind") == "long_linear":
+        rate, accel, ticks = case["rate"], case["accel"], case["ticks"]
+        first = abs(t3_rate_closed(rate, accel, 0, 1))
+        last = abs(t3_rate_closed(rate, accel, 0, ticks))
+        return [m for _c, m in check_state(rate, accel, 0, ticks, first, last, max(first, last))]
     if str(case.get("kind")).startswith("calc_"):
         from .. import calcseq             # pylint: disable=import-outside-toplevel
         return calcseq.replay(case)
